@@ -111,3 +111,20 @@ def sample(n, seed, max_entities=3, class_only=False):
         if ok:
             out.append(spec)
     return out
+
+
+# ---------------------------------------------------------------- curated scenarios for the instantiator / pybind oracles
+PY_SCENARIOS = [
+    # typedef placed before the template's namespace, in another namespace
+    "namespace app {\n  typedef geo::Box<geo::Point> PointBox;\n}\nnamespace geo {\n  class Point { Point(); };\n  template<T>\n  class Box {\n    Box(const T& t);\n    T get() const;\n    This copy() const;\n  };\n}\n",
+    # typedef nested below the template's namespace
+    "namespace geo {\n  namespace deep {\n    typedef geo::Box<double> DBox;\n  }\n  template<T>\n  class Box {\n    Box();\n    T v(const T& t) const;\n  };\n}\n",
+    # products: 2x3, 2x2x2, member-level inside class-level
+    "template<A1 = {int, double}, B1 = {string, bool, char}>\nclass Pair {\n  Pair(A1 a, B1 b);\n  A1 first() const;\n  template<C1 = {size_t, float}> C1 conv(const B1& b) const;\n  template<C1 = {size_t, float}> static C1 make(A1 a);\n};\ntemplate<X1 = {int, double}, Y1 = {int, double}, Z1 = {int, double}>\nX1 mix(Y1 y, Z1 z);\n",
+    # This::X in a class template instantiated several times, plain and one level down
+    "namespace ns {\n  class A {};\n  class B {};\n  template<T = {ns::A, ns::B, double}>\n  class Holder {\n    enum Mode { On, Off };\n    Holder(This::Mode m);\n    This::Mode mode() const;\n    static This Create(This::Mode m, const T& t);\n    void setAll(const std::vector<This::Mode>& ms);\n  };\n}\n",
+    # look-alike identifiers around parameters T / POSE
+    "namespace types { class VecT {}; }\ntemplate<T = {double, int}, POSE = {gtsam::Pose2}>\nclass Uses {\n  Uses(Tag::Kind k, types::VecT::Scalar s, POSE3D::Matrix m, TT t, Type y);\n  T::Value get(const POSE::Jacobian& j) const;\n};\n",
+    # function templates in namespaces, multi-argument instantiations, ignore candidates
+    "namespace ns {\n  template<T, U>\n  class Pair2 {\n    Pair2(T t, U u);\n  };\n  typedef ns::Pair2<int, double> PairID;\n  template<T = {int, double}>\n  T twice(const T& t);\n  class Plain { Plain(); void f() const; };\n}\n",
+]
